@@ -86,8 +86,10 @@ Definition content_for (m : string) : nat :=
 Definition handler_ok (c : call) : bool := Nat.eqb (k_content c) (content_for (k_method c)) && k_ok c.
 
 (* RestoreCreateContainerV2Request + processCreateContainerRequest on the optional second call *)
+(* (repaired: before the fix the second call's contract and method were not looked at) *)
 Definition second_ok (c0 c1 : call) : bool :=
-  Nat.eqb (k_content c1) ct_eacl_new && k_ok c1.
+  Nat.eqb (k_contract c1) (k_contract c0) && String.eqb (k_method c1) put_eacl_method
+  && Nat.eqb (k_content c1) ct_eacl_new && k_ok c1.
 
 (* parseAndHandleNotary + processor: true = NotarySignAndInvokeTX(main tx) is reached *)
 Definition sign (e : env) (q : nreq) : bool :=
